@@ -13,7 +13,9 @@ claim('C09', 'model_checking',
       'move or remove actions while it runs; Ppar streams with symbolic child durations (one stream, two alive at '
       'once, an abandoned one, the same Ppar twice inside another): every child event exactly once at its own time. '
       'The tick of the scheduler AppClock runs on (recursive and non-recursive): 2..3 tasks with symbolic times '
-      'expiring in one tick wake once each in (time, scheduling order) order.',
+      'expiring in one tick wake once each in (time, scheduling order) order. The NRT ClockScheduler with a task '
+      'scheduled again while pending (symbolic delta, instant and new delay in (0, 8], SystemClock / TempoClock, '
+      'optional tempo change afterwards): four wake-ups, each at the beat the last scheduling says.',
       _TB + '; heapq and list comparison are executed, not modelled.',
       'symbolic execution of the real class (concolic z3 proxies) + per-path SMT validity; inductive step over the '
       'representation invariant', 'DESIGN.md 3/C09')
